@@ -967,4 +967,23 @@ theorem myers_valid {α : Type} [DecidableEq α] (xs ys : List α) (es : List Ed
   simp only [Nat.zero_add] at this
   exact seg_valid xs ys es 0 0 this
 
+/-- the `V` arrays are only indexed through `pyMod _ Z`: for a positive modulus that index is in `[0, Z)`, whatever the
+diagonal (also for diagonals below `-Z`, where `(x + y) % y` alone would be negative) -/
+theorem pyMod_range (x y : Int) (hy : 0 < y) : 0 ≤ pyMod x y ∧ pyMod x y < y := by
+  unfold pyMod
+  have h1 : -y < Int.tmod x y := by
+    have := Int.tmod_lt_of_pos (-x) hy
+    rw [Int.neg_tmod] at this
+    omega
+  have h2 : Int.tmod x y < y := Int.tmod_lt_of_pos x hy
+  have h3 : 0 ≤ Int.tmod x y + y := by omega
+  rw [Int.tmod_eq_emod_of_nonneg h3]
+  exact ⟨Int.emod_nonneg _ (by omega), Int.emod_lt_of_pos _ hy⟩
+
+/-- so `getI` / `setI` on an array of length `Z` never fall back to their default -/
+theorem pyMod_index (x : Int) (Z : Nat) (hZ : 0 < Z) : (pyMod x Z).toNat < Z := by
+  have := pyMod_range x Z (by omega)
+  omega
+
+
 end Myers
